@@ -14,6 +14,7 @@ from . import common
 from . import fam_graph as fg
 from . import fam_recipe as fr
 from . import gen_models as gm
+from . import oracles as orc
 from . import pipeline as pl
 
 from ai_edge_quantizer import quantizer  # noqa: E402,F401
@@ -136,7 +137,7 @@ def oracle_c01(ctx, interp, case, res):
     ctx.interp_runs += 1
     if r[0] != "ok":
         ctx.fail(f"interpreter could not allocate/invoke the returned model: {r[0]} {str(r[1])[:160]}", case.replay(),
-                 "interp:" + pl.interp_err_class(r))
+                 "interp:" + pl.interp_err_class(r, res["out"]))
 
 
 def io_should_be_float(q, mb):
@@ -145,8 +146,8 @@ def io_should_be_float(q, mb):
     out = []
     for sg in m.subgraphs:
         scope_in = "".join(pl.tname(sg.tensors[t]) + ";" for t in sg.inputs)
-        a_in, _ = q._recipe_manager.get_quantization_configs("INPUT", scope_in)
-        a_out, _ = q._recipe_manager.get_quantization_configs("OUTPUT", "")
+        a_in, _ = orc.resolve(q, "INPUT", scope_in)
+        a_out, _ = orc.resolve(q, "OUTPUT", "")
         out.append((str(getattr(a_in, "value", a_in)) == "no_quantize", str(getattr(a_out, "value", a_out)) == "no_quantize"))
     return out
 
